@@ -2,6 +2,7 @@ package main
 
 import (
 	"fmt"
+	"net/url"
 	"strings"
 
 	"verif/harness/sx"
@@ -340,6 +341,19 @@ func genKeyPairs(tier string, rng *Rng) []Case {
 		}
 		return keyReq{rng.Pick(methods), rng.Pick(hosts), rng.Pick(uris), hdrs}
 	}
+	// percent-escapes are part of the request-target: an escaped delimiter is not the delimiter
+	escPairs := [][2]string{{"/x%2Fy", "/x/y"}, {"/a%3Fb=c", "/a?b=c"}, {"/p%2Fq%3Fr=1", "/p/q?r=1"}, {"/a%25b", "/a%b"}, {"/a%2fb", "/a%2Fb"}, {"/x?q=%2F", "/x?q=/"}}
+	for _, pr := range escPairs {
+		if _, err := url.ParseRequestURI(pr[0]); err != nil {
+			continue
+		}
+		if _, err := url.ParseRequestURI(pr[1]); err != nil {
+			continue
+		}
+		for _, h := range hosts {
+			out = append(out, keyPair(keyReq{"GET", h, pr[0], nil}, keyReq{"GET", h, pr[1], nil}))
+		}
+	}
 	for len(out) < n {
 		a := mk()
 		for _, b := range resplit(a) {
@@ -369,9 +383,11 @@ func genKeyPairs(tier string, rng *Rng) []Case {
 
 func genEtagUnit() []Case {
 	var out []Case
-	etags := []string{"", "\"abc\"", "W/\"abc\"", "abc", "\"abc-sfx\"", "W/\"abc-sfx\"", "abc-sfx", "\"\"", "\"", "W/", "/W\"x\"", "WW//\"x\"", "\"a\"b\"", "\"abc\"-sfx", "W", "\"abc-sfx", "-sfx", "\"-sfx\"", "Wabc", "//x"}
+	etags := []string{"", "\"abc\"", "W/\"abc\"", "abc", "\"abc-sfx\"", "W/\"abc-sfx\"", "abc-sfx", "\"\"", "\"", "W/", "/W\"x\"", "WW//\"x\"", "\"a\"b\"", "\"abc\"-sfx", "W", "\"abc-sfx", "-sfx", "\"-sfx\"", "Wabc", "//x",
+		// tags whose own tail consists of bytes that also occur in a suffix (cutset-vs-suffix confusions)
+		"\"rev-100\"", "\"rev-100-001\"", "W/\"v1.10\"", "build-2010", "\"boxes-sfx\"", "\"ffs\"", "ss", "\"x-s\"", "\"1-0-0\"", "\"xxx\"", "\"a-001-001\""}
 	sfx := []*string{nil}
-	for _, s := range []string{"-sfx", "\"", "x", "abc"} {
+	for _, s := range []string{"-sfx", "\"", "x", "abc", "-001", "s"} {
 		s := s
 		sfx = append(sfx, &s)
 	}
